@@ -1,9 +1,11 @@
 package vs
 
 import (
+	"fmt"
 	"os"
 	"reflect"
 	"sort"
+	"sync"
 	"unsafe"
 )
 
@@ -28,13 +30,86 @@ var MemOn = os.Getenv("VS_MEM") != "0"
 
 const memMaxWords = 24
 
+// memInfo is the access history of one location: the last write and, FastTrack style, the reads
+// since then that are not ordered among themselves (two inline, the rest in a slice).
 type memInfo struct {
-	wT     int
-	wC     uint32
-	wSite  string
-	reads  []uint32
-	rSites []string
-	last   uint64
+	wT, r1T, r2T          int16 // thread ids, -1 = none
+	wSite, r1Site, r2Site uint16
+	wC, r1C, r2C          uint32
+	more                  []readRec
+}
+
+type readRec struct {
+	t    int16
+	site uint16
+	c    uint32
+}
+
+func newMemInfo() memInfo { return memInfo{wT: -1, r1T: -1, r2T: -1} }
+
+// wordInfo is the state of one aligned 8-byte word: one record while every access covers the
+// whole word, eight per-byte records from the first partial access on.
+type wordInfo struct {
+	whole memInfo
+	split *[8]memInfo
+	last  uint64
+}
+
+func (s *Sched) siteIdx(site string) uint16 {
+	if i, ok := s.memSiteIdx[site]; ok {
+		return i
+	}
+	if s.memSiteIdx == nil {
+		s.memSiteIdx = map[string]uint16{}
+	}
+	i := uint16(len(s.memSites))
+	s.memSites = append(s.memSites, site)
+	s.memSiteIdx[site] = i
+	return i
+}
+
+// ordered reports whether the access (thread u at its clock c) happens before t's current point.
+func ordered(t *Thread, u int16, c uint32) bool {
+	return int(u) == t.id || (int(u) < len(t.clock) && t.clock[u] >= c)
+}
+
+// memOne checks and records one access on one record.
+func (s *Sched) memOne(o *memInfo, t *Thread, site uint16, write bool) {
+	if o.wT >= 0 && !ordered(t, o.wT, o.wC) {
+		s.memRace(s.memSites[o.wSite], s.memSites[site])
+	}
+	tid, now := int16(t.id), t.clock[t.id]
+	if write {
+		if o.r1T >= 0 && !ordered(t, o.r1T, o.r1C) {
+			s.memRace(s.memSites[o.r1Site], s.memSites[site])
+		}
+		if o.r2T >= 0 && !ordered(t, o.r2T, o.r2C) {
+			s.memRace(s.memSites[o.r2Site], s.memSites[site])
+		}
+		for _, r := range o.more {
+			if !ordered(t, r.t, r.c) {
+				s.memRace(s.memSites[r.site], s.memSites[site])
+			}
+		}
+		o.wT, o.wC, o.wSite = tid, now, site
+		o.r1T, o.r2T, o.more = -1, -1, o.more[:0]
+		return
+	}
+	// a read replaces the recorded reads it is ordered after
+	switch {
+	case o.r1T < 0 || ordered(t, o.r1T, o.r1C):
+		o.r1T, o.r1C, o.r1Site = tid, now, site
+	case o.r2T < 0 || ordered(t, o.r2T, o.r2C):
+		o.r2T, o.r2C, o.r2Site = tid, now, site
+	default:
+		for i := range o.more {
+			if ordered(t, o.more[i].t, o.more[i].c) {
+				o.more[i] = readRec{tid, site, now}
+				return
+			}
+		}
+		o.more = append(o.more, readRec{tid, site, now})
+	}
 }
 
 // MemRace is one unordered conflicting pair of plain-memory accesses.
@@ -43,6 +118,12 @@ type MemRace struct {
 }
 
 func (s *Sched) memRace(a, b string) {
+	if f := os.Getenv("VS_MEMDEBUG"); f != "" {
+		if fh, err := os.OpenFile(f, os.O_APPEND|os.O_CREATE|os.O_WRONLY, 0644); err == nil {
+			fmt.Fprintf(fh, "MEMRACE %s | %s (thread %s) %s\n", a, b, s.cur.Name, s.memDbg)
+			fh.Close()
+		}
+	}
 	if a > b {
 		a, b = b, a
 	}
@@ -71,6 +152,15 @@ func MemSites(rs []MemRace) []string {
 	return out
 }
 
+type memType struct {
+	kind uint8 // 1 pointer, 2 map, 3 slice
+	size uintptr
+}
+
+// memTypes is copy-on-write: read without a lock from whichever goroutine holds the run token.
+var memTypes = map[uintptr]memType{}
+var memTypesMu sync.Mutex
+
 // MemT is Mem for use inside a condition: it always yields true.
 func MemT(site string, write bool, p func() any) bool {
 	Mem(site, write, p)
@@ -88,24 +178,43 @@ func Mem(site string, write bool, p func() any) {
 	if v == nil {
 		return
 	}
-	rv := reflect.ValueOf(v)
-	var addr uintptr
-	var size uintptr
-	switch rv.Kind() {
-	case reflect.Ptr:
-		if rv.IsNil() {
+	// hot path: the type word of the interface value selects a cached (kind, element size)
+	iw := (*[2]uintptr)(unsafe.Pointer(&v))
+	ti, ok := memTypes[iw[0]]
+	if !ok {
+		rt := reflect.TypeOf(v)
+		switch rt.Kind() {
+		case reflect.Ptr:
+			ti = memType{kind: 1, size: rt.Elem().Size()}
+		case reflect.Map:
+			ti = memType{kind: 2}
+		case reflect.Slice:
+			ti = memType{kind: 3, size: rt.Elem().Size()}
+		}
+		memTypesMu.Lock()
+		n := make(map[uintptr]memType, len(memTypes)+1)
+		for k, x := range memTypes {
+			n[k] = x
+		}
+		n[iw[0]] = ti
+		memTypes = n
+		memTypesMu.Unlock()
+	}
+	var addr, size uintptr
+	switch ti.kind {
+	case 1, 2:
+		// pointers and maps are pointer-shaped: the data word is the pointer itself
+		addr = iw[1]
+		if addr == 0 {
 			return
 		}
-		addr = rv.Pointer()
-		size = rv.Type().Elem().Size()
-	case reflect.Map:
-		if rv.IsNil() {
-			return
+		size = ti.size
+		if ti.kind == 2 {
+			size = 1
 		}
-		addr = rv.Pointer()
-		size = 1
-	case reflect.Slice:
+	case 3:
 		// the backing array of a slice handed to a call: its length when only read, its capacity when filled
+		rv := reflect.ValueOf(v)
 		n := rv.Len()
 		if write {
 			n = rv.Cap()
@@ -114,7 +223,7 @@ func Mem(site string, write bool, p func() any) {
 			return
 		}
 		addr = rv.Pointer()
-		size = uintptr(n) * rv.Type().Elem().Size()
+		size = uintptr(n) * ti.size
 	default:
 		return
 	}
@@ -166,58 +275,57 @@ func (s *Sched) memAccess(site string, write bool, addr, size uintptr, keep any)
 	}
 	t := s.cur
 	if s.mem == nil {
-		s.mem = map[uintptr]*memInfo{}
-	}
-	if len(s.memKeep) < 1<<16 {
-		s.memKeep = append(s.memKeep, keep)
+		s.mem = map[uintptr]*wordInfo{}
 	}
 	if size == 0 {
 		size = 1
 	}
-	lo := addr &^ 7
-	hi := (addr + size + 7) &^ 7
-	if n := (hi - lo) / 8; n > memMaxWords {
-		hi = lo + memMaxWords*8
+	end := addr + size
+	if end-(addr&^7) > memMaxWords*8 {
+		end = (addr &^ 7) + memMaxWords*8
 	}
+	if os.Getenv("VS_MEMDEBUG") != "" {
+		s.memDbg = fmt.Sprintf("addr=%x size=%d write=%v", addr, size, write)
+	}
+	sidx := s.siteIdx(site)
 	var h uint64
-	for w := lo; w < hi; w += 8 {
-		o := s.mem[w]
-		if o == nil {
-			o = &memInfo{wT: -1}
-			s.mem[w] = o
+	first := true
+	for w := addr &^ 7; w < end; w += 8 {
+		wi := s.mem[w]
+		if wi == nil {
+			wi = &wordInfo{whole: newMemInfo()}
+			s.mem[w] = wi
+			// the object stays alive (and its address unused by anything else) for the rest of the execution
+			s.memKeep = append(s.memKeep, keep)
 		}
-		if o.wT >= 0 && o.wT != t.id {
-			if o.wT >= len(t.clock) || t.clock[o.wT] < o.wC {
-				s.memRace(o.wSite, site)
-			}
+		// bytes of this word that the access covers
+		from, to := uintptr(0), uintptr(8)
+		if addr > w {
+			from = addr - w
 		}
-		if write {
-			for i, rc := range o.reads {
-				if i != t.id && rc > 0 && (i >= len(t.clock) || t.clock[i] < rc) {
-					s.memRace(o.rSites[i], site)
+		if end < w+8 {
+			to = end - w
+		}
+		if from == 0 && to == 8 && wi.split == nil {
+			s.memOne(&wi.whole, t, sidx, write)
+		} else {
+			// objects smaller than a word share words (Go packs tiny allocations): per byte
+			if wi.split == nil {
+				wi.split = new([8]memInfo)
+				for i := range wi.split {
+					wi.split[i] = wi.whole
+					wi.split[i].more = append([]readRec(nil), wi.whole.more...)
 				}
 			}
-			o.wT, o.wC, o.wSite = t.id, t.clock[t.id], site
-			for i := range o.reads {
-				o.reads[i] = 0
+			for i := from; i < to; i++ {
+				s.memOne(&wi.split[i], t, sidx, write)
 			}
-			if w == lo {
-				h = mix(t.last, o.last)
-				o.last = mix(h, 12)
-			}
-		} else {
-			if len(o.reads) <= t.id {
-				n := make([]uint32, t.id+1)
-				copy(n, o.reads)
-				o.reads = n
-				ns := make([]string, t.id+1)
-				copy(ns, o.rSites)
-				o.rSites = ns
-			}
-			o.reads[t.id] = t.clock[t.id]
-			o.rSites[t.id] = site
-			if w == lo {
-				h = mix(t.last, o.last)
+		}
+		if first {
+			first = false
+			h = mix(t.last, wi.last)
+			if write {
+				wi.last = mix(h, 12)
 			}
 		}
 	}
